@@ -181,6 +181,13 @@ def assumptions_ok(text):
 
 def build_mzm():
     """Extract and compile the OCaml driver if any .vo / driver source is newer than the binary."""
+    # the executable model must be compiled consistently against the regenerated gen/ files, whatever an earlier
+    # (possibly failed) proof build left behind
+    tg = [l.strip()[:-2] + ".vo" for l in open(os.path.join(COQ, "_CoqProject")) if l.strip().endswith(".v")
+          and l.strip().split("/")[0] in ("lib", "spec", "gen", "model")]
+    ok, log = coq_build(tg)
+    if not ok:
+        return False, "model layer does not compile: " + log[-1500:]
     with Lock("ocaml"):
         target = os.path.join(BUILD, "mzm")
         newest = 0
